@@ -700,3 +700,14 @@ package objects
 //@   ensures[boundph] err == nil && old(sa.requests[alloc.allocationKey]) != nil && old(sa.requests[alloc.allocationKey].allocated) && old(sa.requests[alloc.allocationKey].placeholder) ==> (forall t Key :: rv(sa.allocatedPlaceholder, t) == clamp64(old(rv(sa.allocatedPlaceholder, t)) + clamp64(rv(alloc.allocatedResource, t) - old(rv(sa.requests[alloc.allocationKey].allocatedResource, t))))) && (forall t Key :: rv(sa.allocatedResource, t) == old(rv(sa.allocatedResource, t)))
 //@   ensures[outstanding] err == nil && old(sa.requests[alloc.allocationKey]) != nil && !old(sa.requests[alloc.allocationKey].allocated) ==> (forall t Key :: rv(sa.pending, t) == clamp64(old(rv(sa.pending, t)) + clamp64(rv(alloc.allocatedResource, t) - old(rv(sa.requests[alloc.allocationKey].allocatedResource, t)))))
 //@   ensures[refused] err != nil ==> sa.pending == old(sa.pending) && sa.allocatedResource == old(sa.allocatedResource) && sa.allocatedPlaceholder == old(sa.allocatedPlaceholder)
+
+// removing everything: the user is credited with exactly what the application still holds (real + placeholder),
+// both totals return to zero and nothing stays listed
+//@ func (sa *Application) RemoveAllAllocations() (released []*Allocation)
+//@   props C03 C05
+//@   sweep
+//@   mode nopanic=off
+//@   ensures[zero] (forall t Key :: rv(sa.allocatedResource, t) == 0 && rv(sa.allocatedPlaceholder, t) == 0) && (forall k string :: !(k in sa.allocations))
+//@   at[credited] call resources.NewResource#1: assert usercredited(sa) || ((forall t Key :: rv(sa.allocatedResource, t) == 0) && (forall t Key :: rv(sa.allocatedPlaceholder, t) == 0))
+//@   at[credit] call objects.Application.decUserResourceUsage#1 after: assume usercredited(sa)
+//@ spec abstract usercredited(a *Application) bool
